@@ -743,26 +743,91 @@ func (ex *Exec) next(fr *Frame, x *ssa.Next, st *State, reach Term) Val {
 
 // mulTerm multiplies; for two non-constant operands it also states the sign-unit facts
 // (x*1, x*-1, x*0) that the solvers do not derive on their own for non-linear terms.
+// Products are kept in a normal form - constant offsets are multiplied out ((x+k)*y == x*y + k*y) and the factors are
+// ordered - so that i*c, c*i and (i-1)*c+c all mention the one monomial i*c and the rest is linear arithmetic.
 func (ex *Exec) mulTerm(a, b Term) Term {
 	_, la := isLit(a)
 	_, lb := isLit(b)
+	if la || lb {
+		return App(SInt, "*", a, b)
+	}
+	if x, k, ok := splitOffset(a); ok {
+		return App(SInt, "+", ex.mulTerm(x, b), App(SInt, "*", k, b))
+	}
+	if y, k, ok := splitOffset(b); ok {
+		return App(SInt, "+", ex.mulTerm(a, y), App(SInt, "*", k, a))
+	}
+	if b.S < a.S {
+		a, b = b, a
+	}
 	p := App(SInt, "*", a, b)
-	if la || lb || strings.Contains(a.S, "?") || strings.Contains(b.S, "?") {
+	if strings.Contains(a.S, "?") || strings.Contains(b.S, "?") {
 		return p
 	}
-	p = ex.vc.define("mul", p)
-	if !strings.HasPrefix(p.S, "mul!") {
-		c := ex.vc.fresh("mul", SInt)
-		ex.vc.assume(Eq(c, p))
-		p = c
+	if ex.vc.noDefine {
+		return p
 	}
+	if ex.vc.mulCache == nil {
+		ex.vc.mulCache = map[string]mulDef{}
+	}
+	if d, ok := ex.vc.mulCache[p.S]; ok && d.line < len(ex.vc.lines) && ex.vc.lines[d.line] == d.text {
+		return d.name
+	}
+	c := ex.vc.fresh("mul", SInt)
+	line := len(ex.vc.lines)
+	ex.vc.assume(Eq(c, p))
+	ex.vc.mulCache[p.S] = mulDef{c, line, ex.vc.lines[line]}
+	p = c
 	for _, pr := range [][2]Term{{a, b}, {b, a}} {
 		x, y := pr[0], pr[1]
 		ex.vc.assume(Implies(Eq(x, IntLit(1)), Eq(p, y)))
 		ex.vc.assume(Implies(Eq(x, IntLit(-1)), Eq(p, Neg(y))))
 		ex.vc.assume(Implies(Eq(x, IntLit(0)), Eq(p, IntLit(0))))
+		if a.S == b.S {
+			break
+		}
 	}
 	return p
+}
+
+type mulDef struct {
+	name Term
+	line int
+	text string
+}
+
+// splitOffset recognises (+ x k), (+ k x) and (- x k) with a numeral k.
+func splitOffset(t Term) (x Term, k Term, ok bool) {
+	if t.Sort != SInt || !strings.HasPrefix(t.S, "(") {
+		return
+	}
+	n := parseSx(t.S)
+	if n == nil || len(n.kids) != 3 {
+		return
+	}
+	h := n.head()
+	if h != "+" && h != "-" {
+		return
+	}
+	lit := func(e *sx) (Term, bool) {
+		tt := Term{e.String(), SInt}
+		if _, isL := isLit(tt); isL {
+			return tt, true
+		}
+		return tt, false
+	}
+	l, lok := lit(n.kids[1])
+	r, rok := lit(n.kids[2])
+	switch {
+	case rok && !lok && h == "+":
+		return l, r, true
+	case rok && !lok && h == "-":
+		v, _ := isLit(r)
+		return l, IntLit(-v), true
+	case lok && !rok && h == "+":
+		return r, l, true
+	}
+	return
 }
 
 // runesOf models []rune(s) by the facts UTF-8 decoding guarantees about the ASCII prefix:
